@@ -76,6 +76,8 @@ Clauses(o, n, e) == <<
     \* the PIN a lifetime works with is the one the file holds (the default only when there is no file)
     <<"LoadedPinNotTheFilesPin", (e.k = "load") => (IF PinOf(e.file) = NoPin THEN e.ok = "f"
                                                    ELSE (e.ok = "t" /\ e.pin = PinOf(e.file)))>>,
+    \* the device is only ever asked to unlock with the PIN this lifetime loaded
+    <<"UnlockWithOtherThanTheLoadedPin", (e.k = "unlock" /\ e.pin # NoPin) => e.pin = n.loaded>>,
     <<"ServedAfterChangeAttempt", (e.k = "end" /\ e.outcome = "serve") => ~n.attempted>>,
     <<"NewPinWithoutUnlock", TRUE>>,
     <<"Recoverable", RecoverableP(e.file, e.dev) \/ InWindow(n, e)>> >>
